@@ -611,97 +611,294 @@ func Scrap(w *load.World, c *core.Collector) {
 		}
 		return false
 	}
-	// calls of function-typed parameters in With
-	nCb, nCreate := 0, 0
-	for _, b := range with.Blocks {
-		for _, in := range b.Instrs {
-			call, ok := in.(*ssa.Call)
-			if !ok {
-				continue
+	// With and the helpers (methods, functions, literals of package cache) it reaches by static calls
+	wf := []*ssa.Function{with}
+	inWF := map[*ssa.Function]bool{with: true}
+	type csite struct {
+		in *ssa.Function
+		at *ssa.Call
+	}
+	callersOf := map[*ssa.Function][]csite{}
+	for i := 0; i < len(wf) && i < 40; i++ {
+		g := wf[i]
+		add := func(h *ssa.Function) {
+			if h != nil && !inWF[h] && len(h.Blocks) > 0 && load.PkgPath(h) == load.PkgPath(with) {
+				inWF[h] = true
+				wf = append(wf, h)
 			}
-			p, isParam := call.Call.Value.(*ssa.Parameter)
-			if !isParam {
-				continue
-			}
-			var errV ssa.Value
-			sig := call.Call.Signature()
-			for i := 0; i < sig.Results().Len(); i++ {
-				if isErrorType(sig.Results().At(i).Type()) {
-					errV = resultValue(call, i)
-				}
-			}
-			if errV == nil {
-				c.Add("SCRAP", fmt.Sprintf("with:%s-error-dropped", p.Name()), core.Violation, w.At(in), "error of the cache callback is not inspected", props...)
-				continue
-			}
-			nonNil, _ := ssax.NilTests(with, errV)
-			if sig.Params().Len() == 1 { // f(cacheToUse.item)
-				nCb++
-				isRet := func(in ssa.Instruction) bool { _, ok := in.(*ssa.Return); return ok }
-				for name, pred := range map[string]func(ssa.Instruction) bool{"scrapped=true": isScrapStore, "delete(sharedCaches)": isMapDelete, "failed.Store(true)": isFailedStore} {
-					v := core.OK
-					d := ""
-					switch {
-					case !regionHas(with, nonNil, pred):
-						v = core.Violation
-						d = "on the path where the cache callback failed, " + name + " is missing: a cache touched by a failed transaction could be handed out again"
-					case name != "delete(sharedCaches)":
-						// marking the cache and the transaction must not depend on anything else
-						for _, e := range nonNil {
-							if ok, at := mustPassFromEdge(e, pred, isRet); !ok {
-								v = core.Violation
-								d = "after the cache callback failed, With can return at " + w.At(at) + " without " + name + ": the step is conditional"
-							}
-						}
+		}
+		for _, lit := range g.AnonFuncs {
+			add(lit)
+		}
+		for _, b := range g.Blocks {
+			for _, in := range b.Instrs {
+				if call, ok := in.(*ssa.Call); ok {
+					if h := ssax.StaticModuleCallee(in); h != nil && load.PkgPath(h) == load.PkgPath(with) {
+						add(h)
+						callersOf[h] = append(callersOf[h], csite{g, call})
 					}
-					c.Add("SCRAP", fmt.Sprintf("with:callback-error#%d:%s", nCb, name), v, w.At(in), d, props...)
 				}
-			} else if sig.Params().Len() == 0 { // createFn()
-				nCreate++
-				v := core.OK
-				d := ""
-				if !regionHas(with, nonNil, isFailedStore) {
-					v = core.Violation
-					d = "on the path where cache construction failed the transaction is not marked failed"
-				}
-				c.Add("SCRAP", fmt.Sprintf("with:create-error#%d:failed.Store(true)", nCreate), v, w.At(in), d, props...)
 			}
 		}
 	}
-	if nCb < 2 || nCreate < 3 {
-		c.Add("SCRAP", "anchor:with-calls", core.Undecided, "", fmt.Sprintf("found %d callback and %d constructor invocations in With (expected 2 and 3)", nCb, nCreate), props...)
+	// effects, seen through helpers that perform them on every path
+	sums := ssax.NewSummaries(func(in ssa.Instruction) []string {
+		var out []string
+		if isScrapStore(in) {
+			out = append(out, "scrapped=true")
+		}
+		if isMapDelete(in) {
+			out = append(out, "delete(sharedCaches)")
+		}
+		if isFailedStore(in) {
+			out = append(out, "failed.Store(true)")
+		}
+		return out
+	}, func(f *ssa.Function) []ssa.Instruction {
+		var out []ssa.Instruction
+		for _, b := range f.Blocks {
+			if r, ok := b.Instrs[len(b.Instrs)-1].(*ssa.Return); ok {
+				out = append(out, r)
+			}
+		}
+		return out
+	})
+	effect := func(name string) func(ssa.Instruction) bool {
+		return func(in ssa.Instruction) bool {
+			for _, l := range sums.At(in) {
+				if l == name {
+					return true
+				}
+			}
+			return false
+		}
 	}
-	// blocking locks on the read-only side must be on fresh elems
-	for _, b := range with.Blocks {
-		for _, in := range b.Instrs {
-			call, ok := in.(*ssa.Call)
-			if !ok {
+	isRet := func(in ssa.Instruction) bool { _, ok := in.(*ssa.Return); return ok }
+	// funcParamOf: the callee value is one of the function-typed parameters handed to With (seen
+	// directly, captured by a literal, or forwarded to a helper)
+	isFuncParam := func(v ssa.Value) bool {
+		for i := 0; i < 3; i++ {
+			switch x := v.(type) {
+			case *ssa.Parameter:
+				_, ok := x.Type().Underlying().(*types.Signature)
+				return ok
+			case *ssa.FreeVar:
+				t := x.Type()
+				if p, ok := t.Underlying().(*types.Pointer); ok {
+					t = p.Elem()
+				}
+				_, ok := t.Underlying().(*types.Signature)
+				return ok
+			case *ssa.UnOp:
+				if x.Op != token.MUL {
+					return false
+				}
+				v = x.X
+				if al, ok := v.(*ssa.Alloc); ok {
+					if sv := ssax.SingleStore(al); sv != nil {
+						v = sv
+					}
+				}
+			default:
+				return false
+			}
+		}
+		return false
+	}
+	// returnsErr: g hands the error value on to its caller
+	returnsErr := func(g *ssa.Function, errV ssa.Value) bool {
+		for _, b := range g.Blocks {
+			ret, ok := b.Instrs[len(b.Instrs)-1].(*ssa.Return)
+			if !ok || len(ret.Results) == 0 {
 				continue
 			}
-			f := call.Call.StaticCallee()
-			if f == nil || (f.String() != "(*sync.RWMutex).Lock" && f.String() != "(*sync.RWMutex).RLock") {
+			last := ret.Results[len(ret.Results)-1]
+			if !isErrorType(last.Type()) {
 				continue
 			}
-			p, fresh := ssax.Path(call.Call.Args[0])
-			if !strings.HasSuffix(p, ".mu") || fresh {
-				continue
+			if last == errV {
+				return true
 			}
-			// must be confined to readOnly == false
-			confined := false
-			for _, bb := range with.Blocks {
-				if ifi, ok := bb.Instrs[len(bb.Instrs)-1].(*ssa.If); ok {
-					if prm, isP := ifi.Cond.(*ssa.Parameter); isP && len(with.Params) > 2 && prm == with.Params[2] && ssax.OnlyViaEdge(bb, 1, b) {
-						confined = true
+			if call, ok := errV.(*ssa.Extract); ok {
+				if c0, ok := call.Tuple.(*ssa.Call); ok && c0.Call.StaticCallee() == nil {
+					if ssax.Prov(last)["call:?"] {
+						return true
 					}
 				}
 			}
-			v := core.OK
-			d := ""
-			if !confined {
-				v = core.Violation
-				d = "a blocking lock on an existing shared cache is reachable for read-only access: readers must never wait (TryRLock or cold copy)"
+			for k := range ssax.Prov(last) {
+				if strings.HasPrefix(k, "call:") && (ssax.Prov(errV)[k] || k == "call:?") {
+					return true
+				}
 			}
-			c.Add("SCRAP", "with:nonblocking-reader", v, w.At(in), d, "C11", "C09")
+		}
+		return false
+	}
+	errOfCall := func(call *ssa.Call) ssa.Value {
+		sig := call.Call.Signature()
+		for i := sig.Results().Len() - 1; i >= 0; i-- {
+			if isErrorType(sig.Results().At(i).Type()) {
+				return resultValue(call, i)
+			}
+		}
+		return nil
+	}
+	// handled: on the path where errV is non-nil in g the effect is performed (unconditionally if
+	// must is set); or g passes the error on and every caller in the family does so
+	var handled func(g *ssa.Function, errV ssa.Value, name string, must bool, depth int) (bool, string)
+	handled = func(g *ssa.Function, errV ssa.Value, name string, must bool, depth int) (bool, string) {
+		pred := effect(name)
+		nonNil, _ := ssax.NilTests(g, errV)
+		if regionHas(g, nonNil, pred) {
+			if !must {
+				return true, ""
+			}
+			okAll := true
+			where := ""
+			for _, e := range nonNil {
+				if ok, at := mustPassFromEdge(e, pred, isRet); !ok {
+					okAll = false
+					where = w.At(at)
+				}
+			}
+			if okAll {
+				return true, ""
+			}
+			return false, "after the cache callback failed, With can return at " + where + " without " + name + ": the step is conditional"
+		}
+		if depth < 3 && g != with && returnsErr(g, errV) && len(callersOf[g]) > 0 {
+			for _, cs := range callersOf[g] {
+				ev := errOfCall(cs.at)
+				if ev == nil {
+					return false, "the error is dropped by " + load.FnKey(cs.in)
+				}
+				if ok, why := handled(cs.in, ev, name, must, depth+1); !ok {
+					return false, why
+				}
+			}
+			return true, ""
+		}
+		return false, ""
+	}
+	nCb, nCreate := 0, 0
+	for _, g := range wf {
+		for _, b := range g.Blocks {
+			for _, in := range b.Instrs {
+				call, ok := in.(*ssa.Call)
+				if !ok || call.Call.IsInvoke() || call.Call.StaticCallee() != nil || !isFuncParam(call.Call.Value) {
+					continue
+				}
+				errV := errOfCall(call)
+				sig := call.Call.Signature()
+				if errV == nil {
+					if sig.Results().Len() > 0 {
+						c.Add("SCRAP", fmt.Sprintf("with:%s-error-dropped", call.Call.Value.Name()), core.Violation, w.At(in), "error of the cache callback is not inspected", props...)
+					}
+					continue
+				}
+				if sig.Params().Len() == 1 { // f(cacheToUse.item)
+					nCb++
+					for _, name := range []string{"scrapped=true", "delete(sharedCaches)", "failed.Store(true)"} {
+						ok, why := handled(g, errV, name, name != "delete(sharedCaches)", 0)
+						v, d := core.OK, ""
+						if !ok {
+							v = core.Violation
+							d = why
+							if d == "" {
+								d = "on the path where the cache callback failed, " + name + " is missing: a cache touched by a failed transaction could be handed out again"
+							}
+						}
+						c.Add("SCRAP", fmt.Sprintf("with:callback-error#%d:%s", nCb, name), v, w.At(in), d, props...)
+					}
+				} else if sig.Params().Len() == 0 { // createFn()
+					nCreate++
+					ok, _ := handled(g, errV, "failed.Store(true)", false, 0)
+					v, d := core.OK, ""
+					if !ok {
+						v = core.Violation
+						d = "on the path where cache construction failed the transaction is not marked failed"
+					}
+					c.Add("SCRAP", fmt.Sprintf("with:create-error#%d:failed.Store(true)", nCreate), v, w.At(in), d, props...)
+				}
+			}
+		}
+	}
+	if nCb < 1 || nCreate < 1 {
+		c.Add("SCRAP", "anchor:with-calls", core.Undecided, "", fmt.Sprintf("found %d callback and %d constructor invocations in With and its helpers (expected at least 1 and 1)", nCb, nCreate), props...)
+	}
+	// blocking locks on the read-only side must be on fresh elems
+	// readOnlyOf: the bool parameter of g that carries With's readOnly flag
+	readOnlyOf := map[*ssa.Function]*ssa.Parameter{}
+	if len(with.Params) > 2 {
+		readOnlyOf[with] = with.Params[2]
+	}
+	for changed := true; changed; {
+		changed = false
+		for g, sites := range callersOf {
+			if readOnlyOf[g] != nil {
+				continue
+			}
+			for _, cs := range sites {
+				ro := readOnlyOf[cs.in]
+				if ro == nil {
+					continue
+				}
+				for i, a := range cs.at.Call.Args {
+					if a == ssa.Value(ro) && i < len(g.Params) {
+						readOnlyOf[g] = g.Params[i]
+						changed = true
+					}
+				}
+			}
+		}
+	}
+	var confinedAt func(g *ssa.Function, b *ssa.BasicBlock, depth int) bool
+	confinedAt = func(g *ssa.Function, b *ssa.BasicBlock, depth int) bool {
+		if ro := readOnlyOf[g]; ro != nil {
+			for _, bb := range g.Blocks {
+				if ifi, ok := bb.Instrs[len(bb.Instrs)-1].(*ssa.If); ok {
+					if prm, isP := ifi.Cond.(*ssa.Parameter); isP && prm == ro && ssax.OnlyViaEdge(bb, 1, b) {
+						return true
+					}
+					if u, isN := ifi.Cond.(*ssa.UnOp); isN && u.Op == token.NOT && u.X == ssa.Value(ro) && ssax.OnlyViaEdge(bb, 0, b) {
+						return true
+					}
+				}
+			}
+		}
+		if g == with || depth > 3 || len(callersOf[g]) == 0 {
+			return false
+		}
+		for _, cs := range callersOf[g] {
+			if !confinedAt(cs.in, cs.at.Block(), depth+1) {
+				return false
+			}
+		}
+		return true
+	}
+	for _, g := range wf {
+		for _, b := range g.Blocks {
+			for _, in := range b.Instrs {
+				call, ok := in.(*ssa.Call)
+				if !ok {
+					continue
+				}
+				f := call.Call.StaticCallee()
+				if f == nil || (f.String() != "(*sync.RWMutex).Lock" && f.String() != "(*sync.RWMutex).RLock") {
+					continue
+				}
+				p, fresh := ssax.Path(call.Call.Args[0])
+				if !strings.HasSuffix(p, ".mu") || fresh || fieldOfAddr(call.Call.Args[0]) != "cache.sharedCacheElem.mu" {
+					continue
+				}
+				v := core.OK
+				d := ""
+				if !confinedAt(g, b, 0) {
+					v = core.Violation
+					d = "a blocking lock on an existing shared cache is reachable for read-only access: readers must never wait (TryRLock or cold copy)"
+				}
+				c.Add("SCRAP", "with:nonblocking-reader", v, w.At(in), d, "C11", "C09")
+			}
 		}
 	}
 	// Commit: failed := t.failed.Load() || fail ; in the loop: scrapped + delete under failed
@@ -1021,16 +1218,53 @@ func Join(w *load.World, c *core.Collector) {
 			continue
 		}
 		key := "callback-waits:" + load.FnKey(cb.Fn)
-		if len(merged) == 0 {
+		// helpers that wait: a module function that receives from a fan-in of (some of) its
+		// error-channel parameters before every return
+		type waitCall struct {
+			call   *ssa.Call
+			waited map[int]bool // argument positions whose channel is waited for
+		}
+		var waits []waitCall
+		for _, b := range cb.Fn.Blocks {
+			for _, in := range b.Instrs {
+				call, ok := in.(*ssa.Call)
+				if !ok {
+					continue
+				}
+				g := call.Call.StaticCallee()
+				if g == nil || !ssax.InModule(g) || len(g.Blocks) == 0 {
+					continue
+				}
+				if wp := waitedParams(g, isFanIn); len(wp) > 0 {
+					// receiver of a method call is parameter 0 and argument 0 alike for static calls
+					waits = append(waits, waitCall{call, wp})
+					// stage channels created inside the helper are its own business: they are
+					// checked there by waitedParams (all of them must reach its fan-in)
+				}
+			}
+		}
+		// stages started inside a waiting helper do not count as stages of the callback
+		if len(merged) == 0 && len(waits) == 0 {
 			c.Add("JOIN", key, core.Violation, w.At(stageCalls[0]), "pipeline stages are started inside the storage transaction but their error channels are never merged", props...)
 			continue
 		}
-		// every stage channel flows into a fan-in
+		// every stage channel flows into a fan-in (or into a helper that waits for it)
 		for _, sc := range stageCalls {
 			okFlow := false
+			label := "call:" + sc.Call.StaticCallee().String()
 			for _, m := range merged {
 				for _, a := range m.Call.Args {
-					if ssax.Prov(a)["call:"+sc.Call.StaticCallee().String()] {
+					if ssax.Prov(a)[label] {
+						okFlow = true
+					}
+				}
+			}
+			for _, wc := range waits {
+				if wc.call == sc {
+					okFlow = true // the helper's own result is not a stage of this callback
+				}
+				for i, a := range wc.call.Call.Args {
+					if wc.waited[i] && ssax.Prov(a)[label] {
 						okFlow = true
 					}
 				}
@@ -1051,6 +1285,9 @@ func Join(w *load.World, c *core.Collector) {
 					}
 				}
 			}
+		}
+		for _, wc := range waits {
+			recvs = append(recvs, wc.call)
 		}
 		first := stageCalls[0]
 		bad := ""
@@ -1077,6 +1314,93 @@ func Join(w *load.World, c *core.Collector) {
 			c.Add("JOIN", key, core.OK, w.At(first), "", props...)
 		}
 	}
+}
+
+// waitedParams: the error-channel parameters of g that g waits for: they flow
+// into a fan-in of g whose merged channel is received from before every return
+// of g, and every stage g starts itself flows into that fan-in too.
+func waitedParams(g *ssa.Function, isFanIn map[*ssa.Function]bool) map[int]bool {
+	var merged, stages []*ssa.Call
+	for _, b := range g.Blocks {
+		for _, in := range b.Instrs {
+			call, ok := in.(*ssa.Call)
+			if !ok {
+				continue
+			}
+			res := call.Call.Signature().Results()
+			for i := 0; i < res.Len(); i++ {
+				if !isErrChan(res.At(i).Type()) {
+					continue
+				}
+				if h := call.Call.StaticCallee(); h != nil && (isFanIn[h] || (h.Origin() != nil && isFanIn[h.Origin()])) {
+					merged = append(merged, call)
+				} else {
+					stages = append(stages, call)
+				}
+			}
+		}
+	}
+	if len(merged) == 0 {
+		return nil
+	}
+	var recvs []ssa.Instruction
+	for _, b := range g.Blocks {
+		for _, in := range b.Instrs {
+			if u, ok := in.(*ssa.UnOp); ok && u.Op == token.ARROW {
+				for _, m := range merged {
+					if u.X == ssa.Value(m) {
+						recvs = append(recvs, in)
+					}
+				}
+			}
+		}
+	}
+	for _, b := range g.Blocks {
+		ret, ok := b.Instrs[len(b.Instrs)-1].(*ssa.Return)
+		if !ok || b == g.Recover {
+			continue
+		}
+		okr := false
+		for _, r := range recvs {
+			if ssax.Precedes(r, ret) {
+				okr = true
+			}
+		}
+		if !okr {
+			return nil
+		}
+	}
+	for _, sc := range stages {
+		if sc.Call.StaticCallee() == nil {
+			return nil
+		}
+		label := "call:" + sc.Call.StaticCallee().String()
+		flows := false
+		for _, m := range merged {
+			for _, a := range m.Call.Args {
+				if ssax.Prov(a)[label] {
+					flows = true
+				}
+			}
+		}
+		if !flows {
+			return nil
+		}
+	}
+	out := map[int]bool{}
+	for i, p := range g.Params {
+		if !isErrChan(p.Type()) {
+			continue
+		}
+		for _, m := range merged {
+			for _, a := range m.Call.Args {
+				if ssax.Prov(a)["param:"+p.Name()] {
+					out[i] = true
+				}
+			}
+		}
+	}
+	return out
 }
 
 func calleeKey(cc *ssa.CallCommon) string {
